@@ -36,7 +36,7 @@ EvChecks(ev, t) ==
           THEN << <<"C16.hooks.admin-only", ev.actor = "owner">> >> \o ObsChecks(RemoveHookNext(st, ev.args.x), t)
           ELSE Unchanged(ev, t)
      [] OTHER -> << <<"TRACE.unknown-event", FALSE>> >>)
-  \o StepChecks(st, t)
+  \o StepChecks(st, t) \o ClockChecks(t)
 
 Report(ev, bad) ==
   IF bad = {} THEN TRUE
@@ -47,7 +47,7 @@ Init == l = 1 /\ st = [kind |-> "none"]
 Next ==
   /\ l <= Len(Rec)
   /\ LET ev == Rec[l] IN
-       IF ev.ev = "reset" THEN st' = StOf(ev.cfg, ev.obs)
+       IF ev.ev = "reset" THEN Report(ev, Failed(ClockChecks(StOf(ev.cfg, ev.obs)))) /\ st' = StOf(ev.cfg, ev.obs)
        ELSE LET t == StOf(st, ev.obs) IN Report(ev, Failed(EvChecks(ev, t))) /\ st' = t
   /\ l' = l + 1
 Spec == Init /\ [][Next]_vars
